@@ -59,8 +59,9 @@ theorem executeGlobals_length_le : ∀ (gs : List GDef) (ss ss' : List GSt) (k :
       simp only [List.length_cons]
       have := ih ss rest k hr; omega
 
-theorem checkGlobals_get : ∀ (gs : List GDef) (ss : List GSt), checkGlobals gs ss = .ok () →
-    ∀ (n : Nat) (g : GDef) (st : GSt), gs[n]? = some g → ss[n]? = some st → g.endCheck st = .ok () := by
+theorem checkGlobals_get (defs : List ArgDef) (sts : List ArgSt) : ∀ (gs : List GDef) (ss : List GSt),
+    checkGlobals defs sts gs ss = .ok () →
+    ∀ (n : Nat) (g : GDef) (st : GSt), gs[n]? = some g → ss[n]? = some st → g.endCheck defs sts st = .ok () := by
   intro gs
   induction gs with
   | nil => intro ss _ n g st hg; simp at hg
@@ -106,7 +107,7 @@ structure GlobInv (cfg : Cfg) (h : HState) : Prop where
       k ∈ st.remaining ∨ ∃ u ∈ h.uses, u.ident = true ∧ Designates cfg k u.arg
   /-- any-of / one-of: `used` is set iff one listed argument was given, and never more than one -/
   used : ∀ (n : Nat) (g : GDef) (st : GSt), cfg.globals[n]? = some g → h.globals[n]? = some st →
-    g.kind ≠ .allOf → (listedUses cfg g h.uses).length = if st.used then 1 else 0
+    g.kind = .anyOf ∨ g.kind = .oneOf → (listedUses cfg g h.uses).length = if st.used then 1 else 0
 
 theorem globInv_init (cfg : Cfg) (inits : List DVal) : GlobInv cfg (cfg.initState inits) := by
   constructor
@@ -190,7 +191,9 @@ theorem globInv_step {cfg : Cfg} {h : HState} {u : Use} {h' : HState}
           simp only [Bool.not_eq_true', Bool.not_eq_false] at hc
           rw [hc]
           cases hkk : g.kind with
-          | allOf => exact absurd hkk hk
+          | allOf => rw [hkk] at hk; rcases hk with c | c <;> cases c
+          | differ => rw [hkk] at hk; rcases hk with c | c <;> cases c
+          | disjoint => rw [hkk] at hk; rcases hk with c | c <;> cases c
           | anyOf =>
             rw [hkk] at h2; dsimp only at h2
             split at h2
@@ -210,15 +213,26 @@ theorem globInv_step {cfg : Cfg} {h : HState} {u : Use} {h' : HState}
               rw [hu] at hold
               simp [hold]
 
-/-- rule "handler constraints", soundness -/
-theorem globals_sound {cfg : Cfg} {h : HState} (f : Frame cfg h) (a : GlobInv cfg h)
-    (e : checkGlobals cfg.globals h.globals = .ok ()) : ObeysGlobals cfg h.uses := by
+/-- the handler constraints with a progress state (all-of / any-of / one-of) are met; nothing is
+    said about the value constraints -/
+def ObeysStateGlobals (cfg : Cfg) (us : List Use) : Prop :=
+  ∀ g ∈ cfg.globals,
+    match g.kind with
+    | .allOf => ∀ k ∈ g.keys, ∃ u ∈ us, u.ident = true ∧ Designates cfg k u.arg
+    | .anyOf => (listedUses cfg g us).length ≤ 1
+    | .oneOf => (listedUses cfg g us).length = 1
+    | .differ => True
+    | .disjoint => True
+
+/-- rule "handler constraints", soundness: the three constraints with a progress state -/
+theorem state_globals_sound {cfg : Cfg} {h : HState} (f : Frame cfg h) (a : GlobInv cfg h)
+    (e : checkGlobals cfg.args h.args cfg.globals h.globals = .ok ()) : ObeysStateGlobals cfg h.uses := by
   intro g hg
   obtain ⟨n, hn, hgn⟩ := List.getElem_of_mem hg
   have hg' : cfg.globals[n]? = some g := by rw [List.getElem?_eq_getElem hn, hgn]
   have hn' : n < h.globals.length := by rw [f.globLen]; exact hn
   have hs' : h.globals[n]? = some h.globals[n] := List.getElem?_eq_getElem hn'
-  have hend := checkGlobals_get _ _ e n g _ hg' hs'
+  have hend := checkGlobals_get _ _ _ _ e n g _ hg' hs'
   unfold GDef.endCheck at hend
   cases hk : g.kind with
   | allOf =>
@@ -233,14 +247,30 @@ theorem globals_sound {cfg : Cfg} {h : HState} (f : Frame cfg h) (a : GlobInv cf
     · cases hend
   | anyOf =>
     dsimp only
-    have := a.used n g _ hg' hs' (by rw [hk]; intro c; cases c)
+    have := a.used n g _ hg' hs' (Or.inl hk)
     rw [this]; split <;> omega
   | oneOf =>
     dsimp only
     rw [hk] at hend; dsimp only at hend
-    have := a.used n g _ hg' hs' (by rw [hk]; intro c; cases c)
+    have := a.used n g _ hg' hs' (Or.inr hk)
     split at hend
     · rename_i hu; rw [this, hu]; rfl
     · cases hend
+  | differ => trivial
+  | disjoint => trivial
+
+/-- … together with the value constraints (which read the destinations; supplied by
+    Lemmas/RulesValueC.lean) -/
+theorem globals_sound {cfg : Cfg} {inits : List DVal} {us : List Use} (hs : ObeysStateGlobals cfg us)
+    (hv : ∀ g ∈ cfg.globals, (g.kind = .differ → DifferMet cfg inits us g.keys) ∧
+      (g.kind = .disjoint → DisjointMet cfg inits us g.keys)) : ObeysGlobals cfg inits us := by
+  intro g hg
+  have h1 := hs g hg
+  cases hk : g.kind with
+  | allOf => rw [hk] at h1; exact h1
+  | anyOf => rw [hk] at h1; exact h1
+  | oneOf => rw [hk] at h1; exact h1
+  | differ => exact (hv g hg).1 hk
+  | disjoint => exact (hv g hg).2 hk
 
 end CelmaVerif.ProgArgs
